@@ -147,6 +147,24 @@ func C04(c *Ctx) {
 	r.Analysed["template_parameters"] = refl
 	c04Pipeline(c, g)
 	c04Flags(c, g)
+	// formatting options of imports.Process (comments must survive: nolint markers, generated-code header)
+	if mf := load.FuncDecl(g.Pkg(""), "", "main"); mf != nil {
+		got := map[string]string{}
+		ast.Inspect(mf.Body, func(n ast.Node) bool {
+			cl, ok := n.(*ast.CompositeLit)
+			if !ok || nospace(cl.Type) != "imports.Options" {
+				return true
+			}
+			for _, e := range cl.Elts {
+				if kv, ok := e.(*ast.KeyValueExpr); ok {
+					got[nospace(kv.Key)] = nospace(kv.Value)
+				}
+			}
+			return false
+		})
+		ok := got["Comments"] == "true" && got["Fragment"] == "true" && got["TabIndent"] == "true" && got["TabWidth"] == "8"
+		r.Check(ok, "C04-e", "G.main:imports.Options", "", "main.go", "TabWidth 8, TabIndent, Comments, Fragment (the goimports defaults)", fmt.Sprintf("options are %v: the emitted file would lose its comments or be formatted unlike gofmt", got))
+	}
 }
 
 // c04FuncName decides injectivity of funcName from the shape of its returned concatenation.
@@ -285,8 +303,9 @@ func c04Wiring(c *Ctx, g *load.G) {
 		ast.Inspect(w, func(n ast.Node) bool {
 			if as, ok := n.(*ast.AssignStmt); ok && len(as.Lhs) == 1 && exprStr(nil, as.Lhs[0]) == param+".FuncIx" {
 				assigned = true
-				r.Check(exprStr(nil, as.Rhs[0]) == "b.exprIndex", "C04-c", "G.builder."+k.Writer+":FuncIx-source", "", g.Where(as.Pos()),
-					"FuncIx := b.exprIndex", "FuncIx is assigned "+exprStr(nil, as.Rhs[0])+" instead of the per-rule expression counter")
+				gs := strings.Join(guardsOf(w.Body, as.Pos()), ";")
+				r.Check(exprStr(nil, as.Rhs[0]) == "b.exprIndex" && gs == param+".FuncIx==0", "C04-c", "G.builder."+k.Writer+":FuncIx-source", "", g.Where(as.Pos()),
+					"FuncIx := b.exprIndex when it is still 0", "FuncIx is assigned "+exprStr(nil, as.Rhs[0])+" under ["+gs+"] (expected b.exprIndex under "+param+".FuncIx==0): the referenced method name and the emitted one can differ, or no index is ever assigned")
 			}
 			return true
 		})
